@@ -33,6 +33,13 @@ func New(config ...Config) fiber.Handler {
 		// Encrypt response cookies once the stack is done: deferred, so that cookies set by a
 		// handler that panics are encrypted too (a recover middleware registered in front of this
 		// one turns the panic into an error response that still carries the Set-Cookie headers)
+		// An Encryptor failure is raised once every cookie has been dealt with (deferred first, so it runs last)
+		var encryptErr error
+		defer func() {
+			if encryptErr != nil {
+				panic(encryptErr)
+			}
+		}()
 		defer c.Response().Header.VisitAllCookie(func(key, _ []byte) {
 			keyString := string(key)
 			if !isDisabled(keyString, cfg.Except) {
@@ -41,7 +48,10 @@ func New(config ...Config) fiber.Handler {
 				if c.Response().Header.Cookie(&cookieValue) {
 					encryptedValue, err := cfg.Encryptor(string(cookieValue.Value()), cfg.Key)
 					if err != nil {
-						panic(err)
+						// the plaintext must not leave the server (a recover middleware in front of this one turns
+						// the panic into a response that still carries the Set-Cookie headers): blank this cookie
+						encryptErr = err
+						encryptedValue = ""
 					}
 
 					cookieValue.SetValue(encryptedValue)
